@@ -507,6 +507,27 @@ def loops(ctx, cfg, fs):
                     other += [short(cc.name) for cc in clo.calls()]
                 elif r.kind == 'const' and isinstance(r.extra, dict) and r.extra.get('chars'):
                     enders |= set(r.extra['chars'])
+        if form is None:
+            # ... or as an iterator search over the characters: input.char_indices()[.enumerate()].find(|..| c == '\n' || c == ' ')
+            ITC = DEFAULT_THROUGH + [r'Iterator>?::(enumerate|by_ref|peekable)$', r'IntoIterator>?::into_iter$']
+            its = [c for c in sp.calls() if c.is_(r'Iterator>?::(find|position|find_map)\b') and len(c.args) > 1 and
+                   any(r.kind == 'call' and r.call.is_(r'str::<impl str>::(char_indices|chars)$') and
+                       all(q.kind == 'param' and q.what == 'self' and q.path == ['input'] for q in provenance(sp, r.call.args[0], r.call.bb, 'term'))
+                       for r in provenance(sp, c.args[0], c.bb, 'term', through=ITC))]
+            if len(its) == 1:
+                form = 'input.char_indices().find(closure)'
+                for r in provenance(sp, its[0].args[1], its[0].bb, 'term', through=None):
+                    if r.kind == 'agg' and r.extra.get('closure') in fs.bodies:
+                        clo = fs.bodies[r.extra['closure']]
+                        for i_, k2, st in clo.stmts():
+                            if st['k'] == 'assign' and st['rv']['k'] == 'bin' and st['rv']['op'] in ('Eq', 'Ne'):
+                                for (x, y) in ((st['rv']['a'], st['rv']['b']), (st['rv']['b'], st['rv']['a'])):
+                                    kk = op_const(y)
+                                    if kk and 'char' in kk and all(q.kind == 'param' for q in provenance(clo, x, i_, k2, through=None)): enders.add(kk['char'])
+                        for sw in switches(clo):
+                            if sw.kind == 'int' and all(q.kind == 'param' for q in provenance(clo, clo.term(sw.b)['op'], sw.b, 'term', through=None)):
+                                enders |= {v for v in sw.edges if isinstance(v, int)}
+                        other += [short(cc.name) for cc in clo.calls()]
     ok = form is not None and bool(enders) and enders <= handled and not other
     ctx.ob('T.loops', 'Splitter::next|variant:word-end-is-a-handled-separator', ok,
            'Splitter::next (%s): a word ends only at %s; the separators consumed at the front of the input are %s; other tests of the scanned character: %s' % (
